@@ -257,6 +257,16 @@ func runCheck(prop, repo, verifDir, tier, only string, workers int, verbose, noE
 			fmt.Println(n)
 		}
 	}
+	if tier == "thorough" && only == "" && rep.exit == 0 && os.Getenv("GOVC_NO_MUTANTS") == "" {
+		// thorough tier: a sample of first-order mutants of the functions under contract (informational)
+		func() {
+			defer func() { recover() }()
+			if sum, _ := runMutantsCapped(prop, repo, verifDir, 6, workers, 48, false); sum != nil {
+				rep.evidence["coverage"].(map[string]interface{})["mutation_sample"] = sum
+				fmt.Printf("mutation sample (informational): %v mutants, %v killed by the contracts, %v survived, %v rejected by the existing tests\n", sum["mutants"], sum["killed_by_contracts"], sum["survived"], sum["rejected_by_existing_tests"])
+			}
+		}()
+	}
 	if boundedFail != "" {
 		path := filepath.Join(verifDir, "out", "replays", prop+"-bounded.json")
 		data, _ := json.MarshalIndent(map[string]interface{}{"property": prop, "obligation": "bounded stand-in", "failing_input": boundedFail}, "", " ")
